@@ -61,6 +61,8 @@ def gen_model(rng, modname, profile="orm"):
             fd = {"name": fname, "kind": kind, "target": target}
             if kind in OPT_DEFAULTS and rng.random() < 0.5:
                 fd["dflt"] = True       # an Optional field whose default is not None
+            if profile == "rt" and kind != "private" and rng.random() < 0.12:
+                fd["kw_only"] = True    # dataclass field(kw_only=True): a keyword-only constructor argument
             fields.append(fd)
         if parent is not None and profile in ("orm", "rt", "big") and rng.random() < 0.2:
             # an intermediate base class that is NOT handed to ORMatic (cf. NotMappedParent in the repository's dataset)
@@ -103,6 +105,14 @@ OPT_DEFAULTS = {"opt_int": "7", "opt_str": "'dflt'", "opt_float": "2.5", "opt_en
 
 
 def annotation(f, quote=False):
+    ann, dflt = _annotation(f, quote)
+    if f.get("kw_only"):
+        # a keyword-only constructor argument
+        dflt = dflt[:-1] + ", kw_only=True)" if dflt.startswith("field(") else f"field(default={dflt}, kw_only=True)"
+    return ann, dflt
+
+
+def _annotation(f, quote=False):
     """quote=True: the module does not postpone annotations, class names inside the annotation are string forward
     references (List["K3"], Optional["K3"], Type["K3"], "K3")"""
     k, t = f["kind"], f["target"]
